@@ -13,7 +13,9 @@ RULE = ("Histories over {CONTINUATION, FIRST, LAST, UNSEGMENTED} x APID x {in-se
         "count, skip two} (compensating irregularities inside one group) "
         "with data lengths 1,2,3,.. by position (shorter than, equal to and longer than the secondary header). "
         "Generated (Hypothesis): histories up to length 40 over <= 4 APIDs, secondary-header lengths 0..4, data lengths "
-        "1..8, arbitrary gaps, repeated counts and start counts near the wrap. Every raw packet carries a unique marker "
+        "1..8, arbitrary gaps, repeated counts and start counts near the wrap; in half of them (and in the one-APID "
+        "enumeration) the packet type, secondary-header flag and version bits vary from packet to packet (groups are "
+        "per APID only). Every raw packet carries a unique marker "
         "byte. Driven through packet_generator(combine_segmented_packets=True, secondary_header_bytes=k) of a header-"
         "only concrete definition, so every (re)assembled packet is yielded. Oracle: reference state machine written "
         "from the statement (per APID an open group or none; a LAST always closes the group) giving the exact list of "
@@ -50,7 +52,8 @@ def build_packets(case):
         counts[a] = c
         data = bytes([i + 1]) * st_["n"]
         out.append((case["apids"][a], st_["f"], c, pk.mkpacket(case["apids"][a], data, seqflags=st_["f"], seqcount=c,
-                                                               shflag=1 if case["s"] else 0)))
+                                                               shflag=st_.get("h", 1 if case["s"] else 0),
+                                                               ptype=st_.get("t", 0), version=st_.get("v", 0))))
     return out
 
 
@@ -183,7 +186,8 @@ def history_one_apid(idx, length, s):
     for i in range(length):
         d = idx % 16
         idx //= 16
-        steps.append({"f": d & 3, "a": 0, "gap": [0, 1, -1, 2][(d >> 2) & 3], "n": i + 1})
+        steps.append({"f": d & 3, "a": 0, "gap": [0, 1, -1, 2][(d >> 2) & 3], "n": i + 1, "h": 1 if i == 0 else 0,
+                      "t": i & 1})
     return {"steps": steps, "s": s, "start": [16381], "apids": [77]}
 
 
@@ -202,12 +206,17 @@ def gen_case(draw):
     start = [draw(st.one_of(st.integers(0, 16383), st.integers(16370, 16383))) for _ in range(napid)]
     s = draw(st.integers(0, 4))
     n = draw(st.integers(1, 40))
+    vary_header = draw(st.booleans())
     steps = []
     for _ in range(n):
         f = draw(st.sampled_from([CONT, CONT, FIRST, LAST, LAST, UNSEG]))
         a = draw(st.integers(0, napid - 1))
         gap = draw(st.sampled_from([0, 0, 0, 0, 0, 0, 1, 2, 16382, 16383, -1]))
-        steps.append({"f": f, "a": a, "gap": gap, "n": draw(st.integers(1, 8))})
+        step = {"f": f, "a": a, "gap": gap, "n": draw(st.integers(1, 8))}
+        if vary_header:
+            # the other header bits are free: groups are per APID, whatever type / secondary-header flag / version say
+            step.update(h=draw(st.integers(0, 1)), t=draw(st.integers(0, 1)), v=draw(st.sampled_from([0, 0, 1, 7])))
+        steps.append(step)
     return {"steps": steps, "s": s, "start": start, "apids": apids}
 
 
